@@ -76,7 +76,7 @@ inductive KwKind where
   /-- a tuple of dimensionless numbers (`Fs`, `ploidys`) -/
   | tupleDimless
   /-- not a number: density, grid, flag, `ns`, ids -/
-  | opaque
+  | other
   deriving Repr, DecidableEq
 
 def opaqueKws : List Name :=
@@ -87,7 +87,7 @@ def opaqueKws : List Name :=
 /-- what a keyword of a primitive expects (by keyword name; `C15_units_keywords_classified`: every keyword of every
     generated signature is classified) -/
 def kwExpected (k : Name) : Option KwKind :=
-  if opaqueKws.contains k then some .opaque
+  if opaqueKws.contains k then some .other
   else if k == nm! "T" || k == nm! "initial_t" then some (.num U.Time)
   else if k == nm! "theta0" then some (.num U.Theta)
   else if k == nm! "beta" || k == nm! "h" || k == nm! "f" then some (.num U.one)
@@ -102,8 +102,8 @@ def kwExpected (k : Name) : Option KwKind :=
       else if pre == [109] then some (.num U.Rate)                       -- m<ij>
       else if pre == [104] then some (.num U.one)                        -- h<i>
       else if pre == [102] then some (.num U.one)                        -- f<i>
-      else if pre == [102, 114, 111, 122, 101, 110] then some .opaque    -- frozen<i>
-      else if pre == [110, 111, 109, 117, 116] then some .opaque         -- nomut<i>
+      else if pre == [102, 114, 111, 122, 101, 110] then some .other    -- frozen<i>
+      else if pre == [110, 111, 109, 117, 116] then some .other         -- nomut<i>
       else none
     else none
 
@@ -187,7 +187,7 @@ def kwOK (r : Bool) (k : Name) (e : Expr) : Bool :=
   | none => false
   | some (.num u) => UT.fits r u (argUnit r e)
   | some .tupleDimless => tupleAll (dimlessE r) e
-  | some .opaque => (argUnit r e).isNone && noParams e
+  | some .other => (argUnit r e).isNone && noParams e
 
 def callOK (r : Bool) (c : Call) : Bool := c.args.all (fun a => kwOK r a.1 a.2)
 
